@@ -2,12 +2,13 @@
 something for a diff touching a non-ignored category, no ANSI escapes with colour disabled (bounded stand-in).
 
 Failure kinds (each reported at most once per run):
-  crash:<ExcType>@<file>:<func>        pretty_print_* / the CLI main raised (site = innermost nbdime frame)
+  crash:<ExcType>@<file>:<func>        pretty_print_* / the CLI main raised (site = innermost nbdime frame);
+  crash:similar-insert:<ExcType>@...   the same, when the crash disappears once the `similar_insert` entries are dropped
   hang@<file>:<func>                   a rendering did not return within HANG_SECONDS (e.g. a dead-locked pipe)
-  esc-with-color-off[:<what>]          '\\x1b' in the output although use_color=False / --no-color
-  output-for-empty-diff[:<what>]       anything printed for the empty diff
-  no-output-for-visible-diff[:...]     nothing printed (':header-only' / ':decision': nothing but the fixed header lines)
-                                       although the diff has a leaf entry all of whose covering categories are shown
+  esc-with-color-off                   '\\x1b' in the output although use_color=False / --no-color
+  output-for-empty-diff                anything printed for the empty diff
+  no-output-for-visible-diff           nothing printed, or nothing but the fixed header lines, although the diff (of a
+                                       decision) has a leaf entry all of whose covering categories are shown
   cli-exit:<app>:<status>              nbdiff / nbshow / nbmerge --decisions returned an unexpected status
 """
 import argparse
@@ -215,18 +216,18 @@ def judge_diff(text, pdiff, cfg, input_has_esc, label='diff'):
     ignored, use_color = cfg[0], cfg[1]
     if not use_color and '\x1b' in text and not input_has_esc:
         i = text.index('\x1b')
-        out.append(('esc-with-color-off:' + label, 'ANSI escape in the %s output with colour disabled: ...%r...' % (label, text[max(0, i - 30):i + 30])))
+        out.append(('esc-with-color-off', 'ANSI escape in the %s output with colour disabled: ...%r...' % (label, text[max(0, i - 30):i + 30])))
     if not pdiff:
         if text:
-            out.append(('output-for-empty-diff:' + label, 'the empty diff prints %r' % text[:120]))
+            out.append(('output-for-empty-diff', 'the empty diff (%s) prints %r' % (label, text[:120])))
         return out
     vis = visible_leaves(pdiff, '', ignored)
     if vis:
         body = DIFF_HEADER.sub('', ANSI.sub('', text), count=1)
         if not text:
-            out.append(('no-output-for-visible-diff:' + label, 'nothing is printed although the diff has entries in shown categories at %r' % vis[:3]))
+            out.append(('no-output-for-visible-diff', 'nothing is printed although the diff has entries in shown categories at %r' % vis[:3]))
         elif not body.strip():
-            out.append(('no-output-for-visible-diff:header-only:' + label,
+            out.append(('no-output-for-visible-diff',
                         'only the file header is printed although the diff has entries in shown categories at %r' % vis[:3]))
     return out
 
@@ -236,7 +237,7 @@ def judge_decisions(text, pdecs, cfg, input_has_esc, label='decisions'):
     ignored, use_color = cfg[0], cfg[1]
     if not use_color and '\x1b' in text and not input_has_esc:
         i = text.index('\x1b')
-        out.append(('esc-with-color-off:' + label, 'ANSI escape in the %s output with colour disabled: ...%r...' % (label, text[max(0, i - 30):i + 30])))
+        out.append(('esc-with-color-off', 'ANSI escape in the %s output with colour disabled: ...%r...' % (label, text[max(0, i - 30):i + 30])))
     vis = []
     for d in pdecs:
         prefix = star(d['common_path'])
@@ -248,7 +249,7 @@ def judge_decisions(text, pdecs, cfg, input_has_esc, label='decisions'):
     if not any(vis):
         return out
     if not text:
-        out.append(('no-output-for-visible-diff:' + label, 'nothing at all is printed for %d decisions with entries in shown categories at %r'
+        out.append(('no-output-for-visible-diff', 'nothing at all is printed for %d decisions with entries in shown categories at %r'
                     % (len(pdecs), [v[0] for v in vis if v][:3])))
         return out
     # split the output at the per-decision header lines; give up (conservatively) if that does not work out
@@ -263,7 +264,7 @@ def judge_decisions(text, pdecs, cfg, input_has_esc, label='decisions'):
         return out
     for d, v, chunk in zip(pdecs, vis, chunks):
         if v and not ''.join(chunk).strip():
-            out.append(('no-output-for-visible-diff:decision', 'only header lines are printed for the decision at %r (action %s) although its diffs have entries in shown '
+            out.append(('no-output-for-visible-diff', 'only header lines are printed for the decision at %r (action %s) although its diffs have entries in shown '
                         'categories at %r' % (d['common_path'], d.get('action'), v[:3])))
             break
     return out
@@ -298,6 +299,20 @@ def render(env, what, payload, cfg, seconds=HANG_SECONDS):
     finally:
         env.use('git')
     return config.out.getvalue(), None
+
+
+def classify_decision_crash(env, bad, base, dec, cfg):
+    """a crash that disappears when the `similar_insert` entries (a local->remote diff that the renderer applies to
+    the base) are dropped from the decisions gets the stable kind prefix crash:similar-insert:"""
+    if bad is None or not bad[0].startswith('crash:') or not any(d.get('similar_insert') for d in dec):
+        return bad
+    stripped = copy.deepcopy(dec)
+    for d in stripped:
+        d.pop('similar_insert', None)
+    _, again = render(env, 'decisions', (base, stripped), cfg)
+    if again is None:
+        return ('crash:similar-insert:' + bad[0][len('crash:'):], bad[1] + ' (while rendering the similar_insert diff of a decision against the base)')
+    return bad
 
 
 def describe(cfg):
@@ -342,7 +357,7 @@ def large_notebooks(variant):
 def _matches(only, index, what, cfg=None, strategy=None):
     if only is None:
         return True
-    if only['index'] != index or only['what'] != what:
+    if only['index'] != index or only['mode'] != what:
         return False
     if strategy is not None and list(only.get('strategy') or []) != list(strategy):
         return False
@@ -380,7 +395,7 @@ class _Acc:
         if kind in self.kinds:
             return
         self.kinds.add(kind)
-        where = {'job': self.job, 'index': index, 'what': what, 'cfg': cfg}
+        where = {'job': self.job, 'index': index, 'mode': what, 'cfg': cfg}
         if strategy is not None:
             where['strategy'] = list(strategy)
         self.fails.append((kind, '%s; %s' % (detail, describe(cfg) if cfg and len(cfg) == 5 else cfg), where))
@@ -433,7 +448,7 @@ def _job_pairs(env, job, only):
                 kds = [bad] if bad else []
                 if not bad and not cfg[1] and '\x1b' in text and not esc:
                     i = text.index('\x1b')
-                    kds.append(('esc-with-color-off:notebook', 'ANSI escape in the pretty-printed notebook with colour disabled: ...%r...' % text[max(0, i - 30):i + 30]))
+                    kds.append(('esc-with-color-off', 'ANSI escape in the pretty-printed notebook with colour disabled: ...%r...' % text[max(0, i - 30):i + 30]))
                 for kd in kds:
                     acc.fail(kd, pi, 'notebook', cfg)
     return acc.result()
@@ -464,6 +479,7 @@ def _job_triples(env, job, only):
             cfgs = sample_configs(rnd, tier, ti) if only is None else [only['cfg']]
             for cfg in cfgs:
                 text, bad = render(env, 'decisions', (b, dec), cfg)
+                bad = classify_decision_crash(env, bad, b, dec, cfg)
                 acc.case(('decisions', cb, cdec, json.dumps(cfg)))
                 for kd in ([bad] if bad else judge_decisions(text, pdec, cfg, esc)):
                     acc.fail(kd, ti, 'decisions', cfg, strat)
@@ -673,6 +689,19 @@ def _job_cli(env, job, only):
                         if exc is not None:
                             k, dtl = _exc_kind(exc)
                             if not _foreign(exc):
+                                if k.startswith('crash:') and _frames_in(exc, 'prettyprint.py'):
+                                    try:
+                                        from nbdime.merging import merge_notebooks
+                                        from bounded import mergespace
+                                        _m, dec = merge_notebooks(copy.deepcopy(b), l, r, mergespace.args_for(strat))
+                                        c2 = [cfg[0], cfg[1], cfg[2], cfg[3], 'args']
+                                        _t, bad = render(env, 'decisions', (b, dec), c2)
+                                        if bad is not None and bad[0] == k:
+                                            k = classify_decision_crash(env, bad, b, dec, c2)[0]
+                                    except common.CheckerDefect:
+                                        raise
+                                    except Exception:
+                                        pass
                                 acc.fail((k, 'nbmerge %s %s' % (' '.join(argv[:-3]), dtl)), ti, 'nbmerge', cfg)
                             continue                  # a crash inside the merge itself is C03's business
                         if status not in (0, 1):
@@ -680,7 +709,7 @@ def _job_cli(env, job, only):
                             continue
                         shown = [m for m in logs if m.startswith('Decisions:')]
                         if not cfg[1] and not esc and any('\x1b' in m for m in shown):
-                            acc.fail(('esc-with-color-off:nbmerge', 'nbmerge %s logs decisions with ANSI escapes although --no-color is given' % ' '.join(argv[:-3])), ti, 'nbmerge', cfg)
+                            acc.fail(('esc-with-color-off', 'nbmerge %s logs decisions with ANSI escapes although --no-color is given' % ' '.join(argv[:-3])), ti, 'nbmerge', cfg)
                         if acc.sample is None and shown:
                             acc.sample = {'what': 'nbmerge --decisions', 'argv': argv[:-3], 'status': status, 'printed_chars': len(shown[0])}
                     finally:
@@ -732,9 +761,10 @@ def run_bounded(res):
             if fid:
                 res.known_hit(fid)
                 continue
-            if kind in seen:
+            root = 'crash:similar-insert' if kind.startswith('crash:similar-insert') else kind     # one root cause, several sites
+            if root in seen:
                 continue
-            seen.add(kind)
+            seen.add(root)
             res.violation('%s [%s]' % (detail, kind), dict(where, replay_kind='call', module='checks.c16_bounded', function='replay_case', args=[where]))
     if not per_kind.get('large') or not per_kind.get('pairs') or not per_kind.get('triples') or not per_kind.get('cli'):
         raise common.CheckerDefect('C16: a whole class of cases was not exercised: %r' % per_kind)
